@@ -50,6 +50,7 @@ def write_evidence(prop, cfg, res):
         "out_of_reach": res["out_of_reach"],
         "vacuity_notes": res["vacuity_notes"],
         "machinery_notes": res["machinery_errors"],
+        "cpython_crosscheck": res.get("crosscheck"),
         "known_findings_hit": res["known_hits"],
         "refuted": [v["obligation"] for v in res["violations"]],
         "samples": samples,
@@ -112,7 +113,7 @@ def main():
     n_ob = len(res["obligations"])
     print(f"[{prop}] tier={a.tier} obligations={n_ob} discharged={res['discharged']} refuted={len(res['violations'])} "
           f"undecided={len(res['undecided'])} out_of_reach={len(res['out_of_reach'])} bounded_cases="
-          f"{sum(b.get('evaluations') or 0 for b in res['bounded'])} wall={res['wall']:.1f}s")
+          f"{sum(b.get('evaluations') or 0 for b in res['bounded'])} crosscheck_runs={(res.get('crosscheck') or {}).get('runs_compared', 0)} wall={res['wall']:.1f}s")
     if a.v or a.only:
         for u in res["undecided"]:
             print("  undecided:", u)
@@ -130,7 +131,12 @@ def main():
     if any("vacuous" in m for m in res["machinery_errors"]):
         print(f"CHECK-ERROR property={prop} vacuity guard failed")
         sys.exit(3)
-    sys.exit(1 if res["new_violations"] else 0)
+    if res["new_violations"]:
+        sys.exit(1)
+    if (res.get("crosscheck") or {}).get("disagreements"):
+        print(f"CHECK-UNDECIDED property={prop} the engine disagrees with CPython on a function under contract; no verdict for it")
+        sys.exit(2)
+    sys.exit(0)
 
 
 if __name__ == "__main__":
